@@ -282,7 +282,14 @@ pub fn run(run: &mut Run) {
     let items: Vec<Item> = corner_values().iter().flat_map(repr_variants).collect();
     let terms = lift_items(&items);
     let mut nt = HashSet::new();
-    let res = check_laws(&terms, &mut nt);
+    // a comparison that panics is a violation of the laws like any other (and must not take the check down with it)
+    let res = match crate::engine::no_panic(|| check_laws(&terms, &mut nt)) {
+        Ok(r) => r,
+        Err(msg) => {
+            run.custom("corner-universe", &Vec::<Item>::new(), Verdict::Fail { signature: "comparison-panics".into(), detail: format!("comparing two terms of the corner universe panicked: {msg}") });
+            return;
+        }
+    };
     let n = terms.len() as u64;
     run.stats.evaluations += n * n + n * n * n;
     match res {
